@@ -80,3 +80,74 @@ pub open spec fn set_iter_ok(s: Set<Carrier>, rem: Seq<&Carrier>) -> bool {
 pub open spec fn ep_totals_ok(bcr: Map<Carrier, BalanceCarrier>, c: Components, b: Balance) -> bool {
     exists|ord: Seq<Carrier>, hist: Seq<Balance>| #[trigger] bal_chain(bcr, ord, hist) && bal_initial(hist[0], c) && hist.last() == b
 }
+// ---- the on-site / nearby renewable parts (ren_onst_nrb, C13)
+pub enum Perim { Onsite, Nearby }
+pub open spec fn perim_term(bcr: Map<Carrier, BalanceCarrier>, p: Perim, c: Carrier) -> real {
+    if bcr.contains_key(c) && (match p { Perim::Onsite => cr_is_onsite(c), Perim::Nearby => cr_is_nearby(c) }) { rv(bcr[c].we.b.ren) } else { 0real }
+}
+pub open spec fn perim_sum(bcr: Map<Carrier, BalanceCarrier>, p: Perim, l: Seq<Carrier>) -> real decreases l.len() {
+    if l.len() == 0 { 0real } else { perim_sum(bcr, p, l.drop_last()) + perim_term(bcr, p, l.last()) }
+}
+pub open spec fn pperim_term(bcr: Map<Carrier, BalanceCarrier>, p: Perim, rem: Seq<(&Carrier, &BalanceCarrier)>, m: int, c: Carrier) -> real {
+    if visited(rem, m, c) { perim_term(bcr, p, c) } else { 0real }
+}
+pub open spec fn pperim_sum(bcr: Map<Carrier, BalanceCarrier>, p: Perim, rem: Seq<(&Carrier, &BalanceCarrier)>, m: int, l: Seq<Carrier>) -> real decreases l.len() {
+    if l.len() == 0 { 0real } else { pperim_sum(bcr, p, rem, m, l.drop_last()) + pperim_term(bcr, p, rem, m, l.last()) }
+}
+pub proof fn lemma_pperim_step(bcr: Map<Carrier, BalanceCarrier>, p: Perim, rem: Seq<(&Carrier, &BalanceCarrier)>, m: int, l: Seq<Carrier>, k: Carrier)
+    requires l.no_duplicates(), !visited(rem, m, k), visited(rem, m + 1, k),
+             forall|x: Carrier| x != k ==> #[trigger] visited(rem, m + 1, x) == visited(rem, m, x),
+    ensures pperim_sum(bcr, p, rem, m + 1, l) == pperim_sum(bcr, p, rem, m, l) + (if l.contains(k) { perim_term(bcr, p, k) } else { 0real }),
+    decreases l.len(),
+{
+    if l.len() > 0 {
+        let l0 = l.drop_last();
+        let x = l.last();
+        assert(l0.no_duplicates()) by { assert forall|i: int, j: int| 0 <= i < l0.len() && 0 <= j < l0.len() && i != j implies l0[i] != l0[j] by { assert(l0[i] == l[i] && l0[j] == l[j]); } }
+        lemma_pperim_step(bcr, p, rem, m, l0, k);
+        if x == k {
+            assert(!l0.contains(k)) by { if l0.contains(k) { let i = choose|i: int| 0 <= i < l0.len() && l0[i] == k; assert(l[i] == k && l[l.len() - 1] == k); } }
+            assert(l.contains(k)) by { assert(l[l.len() - 1] == k); }
+        } else {
+            assert(l.contains(k) == l0.contains(k)) by {
+                if l.contains(k) { let i = choose|i: int| 0 <= i < l.len() && l[i] == k; assert(i < l.len() - 1); assert(l0[i] == k); }
+                if l0.contains(k) { let i = choose|i: int| 0 <= i < l0.len() && l0[i] == k; assert(l[i] == k); }
+            }
+        }
+    }
+}
+pub proof fn lemma_pperim_none(bcr: Map<Carrier, BalanceCarrier>, p: Perim, rem: Seq<(&Carrier, &BalanceCarrier)>, l: Seq<Carrier>)
+    ensures pperim_sum(bcr, p, rem, 0, l) == 0real,
+    decreases l.len(),
+{
+    if l.len() > 0 { lemma_pperim_none(bcr, p, rem, l.drop_last()); }
+}
+pub proof fn lemma_pperim_full(bcr: Map<Carrier, BalanceCarrier>, p: Perim, rem: Seq<(&Carrier, &BalanceCarrier)>, m: int, l: Seq<Carrier>)
+    ensures (forall|x: Carrier| bcr.contains_key(x) ==> #[trigger] visited(rem, m, x)) ==> pperim_sum(bcr, p, rem, m, l) == perim_sum(bcr, p, l),
+    decreases l.len(),
+{
+    if l.len() > 0 { lemma_pperim_full(bcr, p, rem, m, l.drop_last()); }
+}
+/// renewable energy of the electricity balance that belongs to the perimeters
+pub open spec fn el_ren(bcr: Map<Carrier, BalanceCarrier>, which: int) -> real {
+    if bcr.contains_key(Carrier::ELECTRICIDAD) {
+        let w = bcr[Carrier::ELECTRICIDAD].we;
+        if which == 0 { rv(w.del_onst.ren) } else if which == 1 { rv(w.del_cgn.ren) } else { rv(w.exp_a.ren) }
+    } else { 0real }
+}
+/// (on-site part, nearby part) as ren_onst_nrb documents them
+pub open spec fn ren_parts(bcr: Map<Carrier, BalanceCarrier>, k: real) -> (real, real) {
+    (perim_sum(bcr, Perim::Onsite, carriers12()) + el_ren(bcr, 0),
+     perim_sum(bcr, Perim::Nearby, carriers12()) + el_ren(bcr, 0) + el_ren(bcr, 1) - (1real - k) * el_ren(bcr, 2))
+}
+pub proof fn lemma_perim_empty(bcr: Map<Carrier, BalanceCarrier>, p: Perim, l: Seq<Carrier>)
+    ensures bcr.len() == 0 ==> perim_sum(bcr, p, l) == 0real,
+    decreases l.len(),
+{
+    if bcr.len() == 0 {
+        assert(bcr.dom().len() == 0);
+        bcr.dom().lemma_len0_is_empty();
+        assert forall|c: Carrier| !bcr.contains_key(c) by {}
+        if l.len() > 0 { lemma_perim_empty(bcr, p, l.drop_last()); }
+    }
+}
